@@ -841,10 +841,11 @@ int iauth_xreply_ok(struct iauth_request *request, const char *service)
         srv = iauth_xquery_services.vec[ii];
         if (!srv || strcasecmp(service, srv->name))
             continue;
-        /* A retired namesake (the same service spelled differently
-         * before a reload) that this client never asked has nothing
-         * to say about it. */
-        if (!srv->configured && !(cli->sent_mask & (1u << ii)))
+        /* A retired entry is only still here because some other
+         * client waits for its reply; it may be a namesake (the same
+         * service spelled differently before a reload).  Either way
+         * it has nothing to say any more. */
+        if (!srv->configured)
             continue;
         if ((cli->ok_mask & (1u << ii)) != 0)
             return 1;
